@@ -1229,6 +1229,14 @@ func (e *executor) runGrid(ui int, t *dtarget, chunk int, skip map[int]bool) {
 									rec(i + 1)
 								}
 							}
+							if nd == 3 {
+								// the 64-bit product of the dimensions wraps around to 0
+								emit(typ, 0xc0, n, el, nd, []int32{1 << 22, 1 << 21, 1 << 21})
+							}
+							if nd == 4 {
+								emit(typ, 0xc0, n, el, nd, []int32{0x10000, 0x10000, 0x10000, 0x10000})
+								emit(typ, 0xc0, n, el, nd, []int32{1 << 30, 1 << 30, 4, 4})
+							}
 							if nd <= 3 {
 								rec(0)
 							} else {
